@@ -1,9 +1,13 @@
 """C17 -- equals is a sound, total tolerance comparison."""
 import json
+import os
 
 import vlib
 import check
 
+CORPUS = os.path.join(vlib.VERIF, 'corpus', 'c17.json')
+# the theorem that is closed under the global context comes first: check.proof_stage reads every
+# non-indented line after the first "Axioms:" as an axiom name
 THEOREMS = ['C17_structure_meaning', 'C17_total', 'C17_iff', 'C17_refl', 'C17_near', 'C17_far', 'C17_structural',
             'C17_total_refuted_offset_none', 'C17_executed_model_is_real_model']
 
@@ -37,6 +41,9 @@ def run(rep, tier, seed):
     import corr_eqvalid
     mk, log = vlib.make(['lib/EqCorr.vo'])
     rep.obligation('make lib/EqCorr.vo (rational instance executed by the correspondence)', mk, log[-1500:])
+    ncorp, corp_bad = corr_eqvalid.c17_corpus(CORPUS)
+    rep.obligation('corpus of minimised past failures (%d pairs, corpus/c17.json) satisfies the specification' % ncorp, not corp_bad,
+                   json.dumps(corp_bad[:2], default=str)[:1500])
     corr = corr_eqvalid.c17_run(tier, seed) if mk else {'evaluations': 0, 'agree': 0, 'disagreements': [], 'coq_errors': [{'out': 'EqCorr.vo not built'}],
                                                       'hist': {}, 'oracle_violations': [], 'oracle_checked': 0, 'by_category': {}, 'stats': {}, 'samples': [], 'files': 0, 'nontrivial': 0}
     corr_ok = not corr['disagreements'] and not corr['coq_errors'] and corr['evaluations'] > 0 and corr['agree'] == corr['evaluations']
@@ -45,8 +52,11 @@ def run(rep, tier, seed):
     rep.obligation('direct oracle: declarative specification (never raises on well-formed pairs, False on any structural difference or far component, '
                    'True below the band) holds on the implementation for %d pairs' % corr['oracle_checked'],
                    not corr['oracle_violations'] and corr['oracle_checked'] > 0, json.dumps(corr['oracle_violations'][:2], default=str)[:1500])
+    corr['oracle_violations'] = corp_bad + corr['oracle_violations']
     rep.cov['traces_validated_against_impl'] = corr['agree']
-    rep.cov['evaluations'] = corr['evaluations']
+    rep.cov['corpus_cases'] = ncorp
+    rep.cov['edge_shape_pairs_exhaustive'] = tier == 'thorough'
+    rep.cov['evaluations'] = corr['evaluations'] + ncorp
     rep.cov['distinct_nontrivial'] = corr['nontrivial']
     rep.cov['exhaustive'] = False
     rep.cov['correspondence'] = {'pairs': corr['evaluations'], 'agree': corr['agree'], 'coq_files': corr['files'], 'verdict_distribution': corr['hist'],
@@ -63,7 +73,12 @@ def run(rep, tier, seed):
     rep.cov['samples'] = corr['samples'] or [{'note': 'no case ran'}]
     if corr['oracle_violations']:
         seen = set()
-        for p in corr['oracle_violations']:
+        firsts, whats = [], set()
+        for p in corr['oracle_violations']:     # one representative of each kind of failure first
+            if p['what'] not in whats:
+                whats.add(p['what'])
+                firsts.append(p)
+        for p in firsts + corr['oracle_violations']:
             k = finding_key(p)
             if k in seen:
                 continue
